@@ -915,13 +915,45 @@ def check_decision_purity(prog, rep):
     return n
 
 
+def check_weight_sizes(prog, rep):
+    """R12-weights: each weight vector is sized and checked against its OWN count - obj_wt with nobj, ineqcv_wt with nineqcv, eqcv_wt with neqcv (evalfn multiplies
+    weights and transformed values element by element: a vector of another length broadcasts, duplicates or drops the violations it reports)"""
+    R = "R12-weights"
+    pairs = {"obj_wt": "nobj", "ineqcv_wt": "nineqcv", "eqcv_wt": "neqcv"}
+    counts = set(pairs.values())
+    for mod, cname in (("pybrops.opt.prob.Problem", "Problem"), ("pybrops.breed.prot.sel.prob.SelectionProblem", "SelectionProblem")):
+        try:
+            K = prog.get_class(cname, mod)
+        except Exception:
+            continue
+        for wt, cnt in pairs.items():
+            pinfo = K.own_props.get(wt)
+            st = pinfo.setter if pinfo is not None else None
+            if st is None:
+                continue
+            rep.saw(st)
+            used = sorted({field_of(n) for n in ast.walk(st.node) if isinstance(n, ast.Attribute) and field_of(n) in counts})
+            calls = [c for c in ast.walk(st.node) if isinstance(c, ast.Call) and isinstance(c.func, ast.Attribute) and dump(c.func.value) == "self" and not c.func.attr.startswith("__")]
+            if used == [cnt]:
+                rep.ok(R, st.qualname, "%s is sized by %s" % (wt, cnt))
+            elif not used and calls:
+                rep.unrec(R, st.qualname, "%s is sized inside %s()" % (wt, calls[0].func.attr))
+            elif not used:
+                rep.unrec(R, st.qualname, "no count attribute read in the %s setter" % wt)
+            else:
+                wrong = [u for u in used if u != cnt]
+                rep.violate(R, st.qualname, "the %s setter sizes / checks the vector with %s instead of %s: with different numbers of inequality and equality constraints the "
+                            "weights have the wrong length and evalfn reports violations that are not weight x transformation" % (wt, ", ".join(wrong), cnt), where(st),
+                            "self.%s" % cnt, "self.%s" % wrong[0])
+
+
 def run(prog, rep, tier):
     rep.explanation = ("Every latentfn of the problem classes is normalised to an algebraic normal form with the contribution idioms canonicalised, then compared with "
                        "its siblings (the four decision encodings of one criterion) and with the criterion's reference term; evalfn/_evaluate wiring, Cholesky "
                        "factor construction, factory keyword forwarding, chunk tiling/slice coupling and loop-variant data are structural rules.")
     rep.not_decided = ["numerical agreement to rounding", "that the reference terms are the textbook definitions beyond their transcription",
                        "classes whose latentfn simulates (RealLookAhead...) are listed, not claimed"]
-    for r, n in (("R1-criterion", 50), ("R2-invariance", 50), ("R3-wiring", 2), ("R4-factor", 8), ("R5-factories", 60), ("R6-chunks", 2), ("R7-loopdata", 4), ("R11-decision", 50)):
+    for r, n in (("R1-criterion", 50), ("R2-invariance", 50), ("R3-wiring", 2), ("R4-factor", 8), ("R5-factories", 60), ("R6-chunks", 2), ("R7-loopdata", 4), ("R11-decision", 50), ("R12-weights", 3)):
         rep.floor(r, n)
     check_criteria(prog, rep, tier)
     check_wiring(prog, rep)
@@ -933,4 +965,5 @@ def run(prog, rep, tier):
     check_derived(prog, rep)
     check_scratch(prog, rep)
     check_decision_purity(prog, rep)
+    check_weight_sizes(prog, rep)
     check_subset_frequencies(prog, rep, tier)
